@@ -2,6 +2,7 @@ import VrlProofs.Lemmas.TypeOps
 import VrlProofs.Lemmas.TypeAssign
 import VrlProofs.Lemmas.TypeEffect
 import VrlProofs.Lemmas.TypeConst
+import VrlProofs.Lemmas.TypeBinop
 
 /-! Soundness of the type inference for one evaluation step (C01 a/d, C02 b, C12 c), as an
     invariant `Sound` proved by structural recursion over the mutual `Expr`/`Exprs`/`KExprs`.
@@ -391,6 +392,157 @@ theorem sound_iasg (okT errT : Tgt) (e : Expr) (dflt : Value) (ih : IH e) : IH (
     | ret v =>
       simp only [Sound] at h ⊢
       exact h
+    | _ => trivial
+
+/-! ### operators -/
+
+/-- the pieces of `checks (.op o l r) T` -/
+theorem op_checks_split {o : Opcode} {l r : Expr} {T : TState} (hk : AllNan (checks (.op o l r) T)) :
+    AllNan (checks l T) ∧ (o = .err → effectFree l = true) ∧ AllNan (checks r (typeInfo l T).2) ∧
+    AllNan (opChecks o (typeInfo l T).1 (constOf l T) (typeInfo l T).2 (typeInfo r (typeInfo l T).2).1
+      (typeInfo r (typeInfo l T).2).2 (effectFree r)) := by
+  rw [checks] at hk
+  simp only [allNan_append] at hk
+  obtain ⟨⟨⟨h1, h2⟩, h3⟩, h4⟩ := hk
+  refine ⟨h1, ?_, h3, h4⟩
+  intro ho
+  subst ho
+  simp only [beq_self_eq_true, if_true] at h2
+  rwa [allNan_chk (by decide)] at h2
+
+theorem nan_l {o : Opcode} {l r : Expr} {T : TState} (h : Chk.nan ∈ checks l T) : Chk.nan ∈ checks (.op o l r) T := by
+  rw [checks]
+  exact List.mem_append_left _ (List.mem_append_left _ (List.mem_append_left _ h))
+
+theorem nan_r {o : Opcode} {l r : Expr} {T : TState} (h : Chk.nan ∈ checks r (typeInfo l T).2) :
+    Chk.nan ∈ checks (.op o l r) T := by
+  rw [checks]
+  exact List.mem_append_left _ (List.mem_append_right _ h)
+
+theorem nan_o {o : Opcode} {l r : Expr} {T : TState}
+    (h : Chk.nan ∈ opChecks o (typeInfo l T).1 (constOf l T) (typeInfo l T).2 (typeInfo r (typeInfo l T).2).1
+      (typeInfo r (typeInfo l T).2).2 (effectFree r)) : Chk.nan ∈ checks (.op o l r) T := by
+  rw [checks]
+  exact List.mem_append_right _ h
+
+theorem sound_op_strict (o : Opcode) (ho : strictOp o = true) (l r : Expr) (ihl : IH l) (ihr : IH r) :
+    IH (.op o l r) := by
+  intro T s hk hc
+  obtain ⟨hkl, _, hkr, hko⟩ := op_checks_split hk
+  have h1 := ihl T s hkl hc
+  rw [typeInfo, eval_op_strict o ho]
+  simp only [opInfo]
+  cases hq : eval l s with
+  | mk r1 s1 =>
+    rw [hq] at h1
+    cases r1 with
+    | ok v =>
+      simp only [Sound] at h1
+      have h2 := ihr _ s1 hkr h1.2.2
+      simp only
+      cases hq2 : eval r s1 with
+      | mk r2 s2 =>
+        rw [hq2] at h2
+        cases r2 with
+        | ok w =>
+          simp only [Sound] at h2
+          -- the constant of the rhs (typed in the state after the lhs) is its value
+          have hrv : ∀ c, constOf r (typeInfo l T).2 = some c → w = c := by
+            intro c hcv
+            obtain ⟨s', e1, _⟩ := const_eval r _ c hcv s1 h1.2.2
+            rw [hq2] at e1; cases e1; rfl
+          have hb := binop_sound o ho v w (typeInfo l T).1 (typeInfo r (typeInfo l T).2).1 (constOf l T)
+            (constOf r (typeInfo l T).2) (typeInfo l T).2 (typeInfo r (typeInfo l T).2).2 (effectFree r)
+            h1.1 h2.1 h1.2.1 h2.2.1 hrv hko
+          simp only
+          rcases binop_shape o v w with ⟨x, hbo⟩ | hbo | hbo
+          · rw [hbo]
+            simp only [Sound]
+            refine ⟨(hb.1 x hbo).1, (hb.1 x hbo).2, ?_⟩
+            rw [opState_strict o ho]
+            by_cases hd : o = .div
+            · subst hd
+              simp only [if_true]
+              -- the state changes of the rhs are not applied: it has none
+              simp only [opChecks, allNan_append] at hko
+              rw [allNan_chk (by decide)] at hko
+              have hsame := effectFree_same r hko.1.1 s1
+              rw [hq2] at hsame
+              exact Conforms.of_same hsame h1.2.2
+            · simp only [hd, if_false]; exact h2.2.2
+          · rw [hbo]
+            simp only [Sound]
+            rcases hb.2 hbo with h | h
+            · exact Or.inl h
+            · exact Or.inr (nan_o h)
+          · rw [hbo]; trivial
+        | err =>
+          simp only [Sound] at h2 ⊢
+          by_cases hd : o = .div
+          · subst hd
+            simp only [opChecks, allNan_append] at hko
+            rw [allNan_chk (by decide), allNan_chk (by decide)] at hko
+            have := hko.1.2
+            simp only [Bool.and_eq_true, Bool.not_eq_true'] at this
+            rcases h2 with h | h
+            · rw [this.1.1.2] at h; cases h
+            · exact Or.inr (nan_r h)
+          · rcases h2 with h | h
+            · exact Or.inl (opDef_strict_fallible o ho hd _ _ _ _ (Or.inr h))
+            · exact Or.inr (nan_r h)
+        | ret x =>
+          simp only [Sound] at h2 ⊢
+          by_cases hd : o = .div
+          · subst hd
+            simp only [opChecks, allNan_append] at hko
+            rw [allNan_chk (by decide), allNan_chk (by decide)] at hko
+            have := hko.1.2
+            simp only [Bool.and_eq_true, Bool.not_eq_true'] at this
+            rw [memR_never x _ this.2] at h2; cases h2
+          · rw [opDef_strict_returns o ho hd]
+            have hu : unionOk (typeInfo l T).1.returns (typeInfo r (typeInfo l T).2).1.returns = true := by
+              cases o <;> first
+                | (simp [strictOp] at ho; done)
+                | exact absurd rfl hd
+                | (simp only [opChecks, allNan_append] at hko
+                   first
+                     | (rw [allNan_chk (by decide)] at hko; exact hko.1)
+                     | (have := hko.2; rwa [allNan_chk (by decide)] at this))
+            exact memR_union_right hu h2
+        | _ => trivial
+    | err =>
+      simp only [Sound] at h1 ⊢
+      by_cases hd : o = .div
+      · subst hd
+        simp only [opChecks, allNan_append] at hko
+        rw [allNan_chk (by decide), allNan_chk (by decide)] at hko
+        have := hko.1.2
+        simp only [Bool.and_eq_true, Bool.not_eq_true'] at this
+        rcases h1 with h | h
+        · rw [this.1.1.1] at h; cases h
+        · exact Or.inr (nan_l h)
+      · rcases h1 with h | h
+        · exact Or.inl (opDef_strict_fallible o ho hd _ _ _ _ (Or.inl h))
+        · exact Or.inr (nan_l h)
+    | ret x =>
+      simp only [Sound] at h1 ⊢
+      by_cases hd : o = .div
+      · subst hd
+        simp only [opChecks, allNan_append] at hko
+        rw [allNan_chk (by decide), allNan_chk (by decide)] at hko
+        have := hko.1.2
+        simp only [Bool.and_eq_true, Bool.not_eq_true'] at this
+        rw [memR_never x _ this.1.2] at h1; cases h1
+      · rw [opDef_strict_returns o ho hd]
+        have hu : unionOk (typeInfo l T).1.returns (typeInfo r (typeInfo l T).2).1.returns = true := by
+          cases o <;> first
+            | (simp [strictOp] at ho; done)
+            | exact absurd rfl hd
+            | (simp only [opChecks, allNan_append] at hko
+               first
+                 | (rw [allNan_chk (by decide)] at hko; exact hko.1)
+                 | (have := hko.2; rwa [allNan_chk (by decide)] at this))
+        exact memR_union_left hu h1
     | _ => trivial
 
 end Lang
